@@ -6,7 +6,7 @@ From Clemens Require Import Base.Res Base.Word Base.Bytes Search.Time Search.TT.
 From Clemens Require Import Pos.Types Att.Attacks Pos.Position Pos.Fen.
 From Clemens Require Import Eval.Eval Eval.SeeRef Search.Ordering Search.Negamax.
 From Clemens Require Import Uci.ParseGo Uci.Input Uci.Game.
-From Clemens Require Rules.Fide Rules.SpecFen Uci.Conc Search.GoInst C15Mirror.Mirror Rules.Abs.
+From Clemens Require Rules.Fide Rules.SpecFen Uci.Conc Search.GoInst C15Mirror.Mirror Rules.Abs C15Bound.Material.
 From ClemensGen Require Import GoConsts.
 Import ListNotations.
 
@@ -63,6 +63,7 @@ Definition m_hash_full : N -> N := hash_full tt_numberOfBuckets m_tt_bucket_size
 
 (* C15: the mirror image of a position; C01/C02: the abstraction to the FIDE board state *)
 Definition m_mirror := C15Mirror.Mirror.mirror.
+Definition m_material_ok := C15Bound.Material.material_ok.
 Definition m_abs := Rules.Abs.abs.
 Definition m_decode := Rules.Abs.decode.
 
@@ -109,7 +110,7 @@ Definition c06_random_execution (fuel : nat) (d : list nat) (pick : nat -> nat -
   c06_walk fuel (Uci.Conc.init (map c06_cmd d)) pick [].
 
 Extraction "clemens_model.ml"
-  c06_run c06_executions c06_random_execution m_mirror m_abs m_decode
+  c06_run c06_executions c06_random_execution m_mirror m_material_ok m_abs m_decode
   m_calc_time m_tt_index m_tt_exec m_hash_full tt_get tt_save tt_reset
   m_new_position m_new_from_fen m_new_from_fen_unrepaired m_to_fen m_scratch_hash m_make_move m_legal_moves
   m_make_null_move m_unmake_null_move m_move_from_string m_make_move_from_string move_to_string
